@@ -66,6 +66,23 @@ def inputs(rng, sc, tier):
             body[0] = min(255, max(22, rng.choice([22, 25, 40, n - 2 if n < 257 else 200])))
             body[1] = sum(body[2:2 + body[0]]) & 0xFF
         put("random", bytes(body))
+    # combinations of header shape x OS type x kind of body: each feature is harmless alone, and each has code that relies on what
+    # the others guarantee (a file has a name; a directory has a path; a Mac member's envelope repeats the name; a link has a target)
+    import itertools
+    import c06
+    stamp = 1000000000
+    k = 0
+    for nm, pth, perm, meth, osb, body in itertools.product([None, b"ReadMe", b".", b"a|b", b""], [None, b"Folder\xff", b"Folder\xffReadMe\xff", b""],
+                                                             [None, 0o120777], [b"-lh0-", b"-lhd-"], [ord("m"), ord("U")], ["mac", "short"]):
+        k += 1
+        exts = ([arc.x_name(nm)] if nm is not None else []) + ([(arc.X_PATH, pth)] if pth is not None else []) + ([arc.x_perm(perm)] if perm is not None else [])
+        data = c06.macbinary(b"ReadMe", b"fork", stamp) if body == "mac" else b"abc"
+        if meth == b"-lhd-":
+            data = b""
+        lvl = 1 + k % 3
+        m = arc.Member(level=lvl, method=meth, name=(b"ReadMe" if (lvl == 1 and k % 2) else b""), payload=data, time=stamp if lvl >= 2 else arc.dos_time(2001, 9, 9, 1, 46, 40),
+                       os=osb, exts=exts)
+        put("shape", m.bytes() + arc.unix_file(b"after/second.txt", b"2nd", level=2).bytes() + b"\0")
     # valid generated archives (members of every kind) bit-flipped in the data area
     for i in range(30 if tier == "quick" else 600):
         raw = bytearray(b"".join(m.raw() for m in RG.random_archive(rng, nmax=5)) + b"\0")
